@@ -19,7 +19,9 @@ EXPLANATION = (
     "'related_model' off; R-C05.3 for each signature class __eq__ and diff "
     'read the same attributes with the same comparison mode (raw, set, '
     'list, default-aware); R-C05.4 clone() carries every attribute set in '
-    '__init__ and does not share mutable containers with the original.')
+    '__init__ and does not share mutable containers with the original; '
+    'R-C05.5 Diff.evolution never uses, inside one loop, a per-model value '
+    'bound only in a different, finished loop (stale loop variable).')
 NOT_DECIDED = (
     'Closure of diff -> hint -> simulate for all signature pairs (needs '
     'execution of the three functions on generated pairs).')
@@ -570,7 +572,62 @@ def r4_clone(ctx):
     ctx.floor('signature classes with clone()', n_cls, 6)
 
 
+def r5_no_stale_loop_variable(ctx):
+    """Inside Diff.evolution every per-model / per-field object used in a
+    loop body must be (re)bound in that loop: a value whose only definitions
+    sit in the body of a *different*, already finished loop belongs to the
+    last element of that other loop."""
+    ctx.rule('R-C05.5')
+    p = ctx.program
+    from ..flow import ReachingDefs
+    from ..util import loop_body_ids
+    f = p.func('diff', 'Diff.evolution')
+    g = ctx.cfg(f)
+    rd = ReachingDefs(g, f.params)
+    heads = [h for h in g.nodes if h.kind == 'for']
+    bodies = {h.id: loop_body_ids(g, h) for h in heads}
+    ctx.floor('loops in Diff.evolution', len(heads), 4)
+    seen = set()
+    n_uses = 0
+    for n in g.nodes:
+        if n.kind not in ('stmt', 'test', 'operand', 'iter'):
+            continue
+        in_loops = [h for h in heads if n.id in bodies[h.id]]
+        if not in_loops:
+            continue
+        for x in n.walk():
+            if not (isinstance(x, ast.Name) and isinstance(x.ctx, ast.Load)):
+                continue
+            defs = [d for d in rd.reaching(n, x.id) if d.kind != 'mutate']
+            if not defs or any(d.kind in ('param', 'import', 'def')
+                               for d in defs):
+                continue
+            n_uses += 1
+            # all definitions inside some loop body that does not contain
+            # the use, and the value depends on that loop's element
+            for h in heads:
+                if n.id in bodies[h.id]:
+                    continue
+                if all(d.node.id in bodies[h.id] for d in defs):
+                    if (x.id, h.id) in seen:
+                        continue
+                    seen.add((x.id, h.id))
+                    ctx.finding(f, n.ast, '"%s" is used in a loop over %s '
+                                'but is only ever bound inside the earlier '
+                                'loop over %s: every iteration sees the value '
+                                'of that loop\'s last element, so hints for '
+                                'all but one model are built from the wrong '
+                                'signature' % (
+                                    x.id, unparse(in_loops[-1].ast.iter)[:40],
+                                    unparse(h.ast.iter)[:40]),
+                                key='stale-loop-variable:%s' % x.id)
+    if not seen:
+        ctx.ok(f, 'no use of a value bound only in a different, finished '
+               'loop (%d uses checked)' % n_uses)
+
+
 def run(ctx):
+    r5_no_stale_loop_variable(ctx)
     r1_diff_keys_consumed(ctx)
     r2_simulate_writes_what_diff_reads(ctx)
     r3_eq_vs_diff(ctx)
